@@ -2515,6 +2515,11 @@ impl Connection {
                 return Ok(());
             }
             State::Closed(_) => {
+                if number.is_none() {
+                    // Retry and Version Negotiation packets are not authenticated and carry no
+                    // frames; don't go looking for a CONNECTION_CLOSE in them
+                    return Ok(());
+                }
                 for result in frame::Iter::new(packet.payload.freeze())? {
                     let frame = match result {
                         Ok(frame) => frame,
